@@ -1,4 +1,6 @@
 import SqlgrepModel.CodecStmt
+import SqlgrepModel.Spec.Agg
+import SqlgrepModel.Spec.Select
 /- `batch` (FileExecutor run, text format) and `incr` (line-at-a-time engine outputs). -/
 namespace Sqlgrep.Drivers.Run
 open Sqlgrep
@@ -19,7 +21,15 @@ def handleBatch (args : List Sexp) : String :=
   match args with
   | [o, q, j, .list (.atom "files" :: fs), stop] =>
     match Oracles.ofSexp o, Query.ofSexp q, fileOfSexp j, fs.mapM fileOfSexp, optNat stop with
-    | some o, some q, some j, some fs, some stop => runOutToWire (runBatch o q j fs stop)
+    | some o, some q, some j, some fs, some stop =>
+      let model := runOutToWire (runBatch o q j fs stop)
+      -- three-way comparison: the executable specification's answer travels with the model's
+      let spec := if stop.isSome then none else match q.stmt with
+        | .aggregate a => Spec.Agg.batch o q a j fs
+        | .select s => Spec.Select.batch o q s j fs
+      match spec with
+      | some (ro, cls) => model ++ " ## " ++ runOutToWire ro ++ " ## " ++ (if cls.isEmpty then "spec-mismatch" else cls)
+      | none => model
     | none, _, _, _, _ => "bad-oracles"
     | _, none, _, _, _ => "bad-query"
     | _, _, none, _, _ => "bad-joined"
